@@ -56,6 +56,13 @@ def structured_state_cases(ck):
                 t = bytearray(rnd16(r))
                 t[4 * col:4 * col + 4] = bytes(4)
                 probes.append((k, bytes(t), rnd, "zero-column"))
+        for row in range(4):
+            # a whole ROW of the state zero (FIPS layout: index 4*column + row): rows are what the source's u32 words g[i] hold
+            k = rnd16(r)
+            t = bytearray(rnd16(r))
+            for col in range(4):
+                t[4 * col + row] = 0
+            probes.append((k, bytes(t), rnd, "zero-row"))
         k = rnd16(r)
         t = bytearray(rnd16(r))
         for q in r.sample(range(16), 5):
@@ -87,8 +94,8 @@ def run(ck):
     for k, pt, cls in structured_state_cases(ck):
         cases.append(Case("aes e %s %s" % (k.hex(), pt.hex()), "aes", "enc/structured/" + cls.split("-", 1)[1]))
     # decryption of the spec ciphertexts of the structured plaintexts reaches the same states before InvMixColumns
-    smap = wv.run_lines([ck.model_driver(), "spec"], ["t%d %s" % (i, c.line) for i, c in enumerate(cases) if c.cls.startswith("enc/structured")])
     scases = [c for c in cases if c.cls.startswith("enc/structured")]
+    smap = wv.run_lines([ck.model_driver(), "spec"], ["t%d %s" % (i, c.line) for i, c in enumerate(scases)])
     for i, c in enumerate(scases):
         ct = smap.get("t%d" % i)
         if ct and len(ct) == 32:
